@@ -30,8 +30,8 @@ def hcalc(fn, data):
 
 def item_from_tla(x):
     """byte string exported by TLC; free-constructor hash terms <<-2, fnid>> \\o x are evaluated here"""
-    if len(x) >= 2 and x[0] == -2:
-        return hcalc(HASHFN[x[1]], bytes(x[2:]))
+    if len(x) >= 3 and x[0] == -2:
+        return hcalc(HASHFN[x[1]], bytes(x[3:]))
     return bytes(x)
 
 
